@@ -362,6 +362,53 @@ func emitCase(g *lp.Gen, client bool, maxBody, limit int, stream []byte, mode in
 	}
 }
 
+// longLine: a well-formed message with ONE very long line — request target, reason phrase, header value or header
+// name — of a size around the 4 KiB / 8 KiB / 16 KiB (thorough: 64 KiB) boundaries, ReadLimit off; returns the stream
+// and the offset at which the long line's long token starts. No parser constant depends on the length of a line, so the
+// result must not depend on where inside it a read ends.
+func longLine(g *lp.Gen, client bool) (string, int) {
+	n := g.PickInt(4095, 4096, 4097, 8191, 8192, 8193, 8200, 9000, 12000, 16383, 16384, 16385, 20000)
+	if g.Tier == "thorough" && g.Chance(1, 6) {
+		n = g.PickInt(65535, 65536, 65537, 70000)
+	}
+	fill := func(alpha string) string {
+		b := make([]byte, n)
+		for i := range b {
+			b[i] = alpha[g.Intn(len(alpha))]
+		}
+		return string(b)
+	}
+	const tok = "abcdefghijklmnopqrstuvwxyzABCDEFGHIJKLMNOPQRSTUVWXYZ0123456789-_"
+	head, long, tail := "", "", ""
+	switch k := g.Intn(4); {
+	case k == 0 && !client: // request target
+		head, long, tail = g.Pick("GET", "POST")+" /", fill(tok+"/=&%"), " HTTP/1.1\r\nHost: x\r\nContent-Length: 0\r\n\r\n"
+	case k == 0: // reason phrase
+		head, long, tail = "HTTP/1.1 200 O", fill(tok+" "), "K\r\nContent-Length: 0\r\n\r\n"
+	case k == 1: // header name
+		head, long, tail = "", fill(tok), ": v\r\nContent-Length: 0\r\n\r\n"
+	default: // header value (a Cookie of that size is common)
+		head, long, tail = g.Pick("Cookie: ", "X-Long:", "cookie:  "), fill(tok+" ;=,\"/"), "\r\nContent-Length: 0\r\n\r\n"
+	}
+	start := ""
+	if head == "" || strings.HasSuffix(head, ":") || strings.HasSuffix(head, " ") && !strings.Contains(head, "/") {
+		if client {
+			start = "HTTP/1.1 200 OK\r\n"
+		} else {
+			start = "GET /a HTTP/1.1\r\nHost: x\r\n"
+		}
+	}
+	s := start + head + long + tail
+	if g.Chance(1, 2) { // a pipelined successor: a misplaced boundary shows
+		if client {
+			s += "HTTP/1.1 204 No Content\r\n\r\n"
+		} else {
+			s += "GET /next HTTP/1.1\r\nHost: y\r\n\r\n"
+		}
+	}
+	return s, len(start) + len(head)
+}
+
 func gen(g *lp.Gen) {
 	allCuts := 400 // one stream in `allCuts` is fed with every single cut position
 	if g.Tier == "thorough" {
@@ -369,6 +416,23 @@ func gen(g *lp.Gen) {
 	}
 	for cs := 0; cs < g.N; cs++ {
 		client := g.Chance(1, 4)
+		if g.Chance(1, 1200) { // a handful per run: one very long line, one read boundary deep inside it (or just around it)
+			s, at := longLine(g, client)
+			b := []byte(s)
+			into := g.PickInt(1, 4095, 4096, 4097, 8191, 8192, 8193, 8300, 10000, 16384, 16385, 65536, 65537)
+			cut := at + into
+			if g.Chance(1, 6) {
+				cut = at - g.Intn(3) // just before the long token
+			}
+			if cut >= len(b) || g.Chance(1, 5) {
+				cut = len(b) - 1 - g.Intn(40) // near the end of the message
+			}
+			if cut < 1 {
+				cut = 1
+			}
+			emitCase(g, client, 0, 0, b, 3, cut)
+			continue
+		}
 		maxBody := 0
 		if g.Chance(1, 5) {
 			maxBody = 1 + g.Intn(60)
